@@ -416,6 +416,10 @@ class ChartRules:
             fail(r, ctx, f, loop.node, f"exactly one track construction per routed section expected; found {len(builds)}")
             return
         bc = builds[0]
+        if bc.trys:
+            fail(r, ctx, f, bc.node, "the track construction is enclosed by a try: a section whose parse raises would be dropped -- and, with the "
+                                     "handler outside the loop, every later section with it -- instead of the error reaching the caller "
+                                     "(a selected track that exists in the file must be returned or the parse must fail)")
         tf = ctx.func(f"{TRACK}.from_chart_lines")
         tps = tf.params()
         kw = dict(bc.kwargs)
